@@ -159,6 +159,26 @@ def _same(it, a, b):
 
 R.spec_funcs["same"] = _same
 
+# ------------------------------------------------------------------------------------------------- WSGI transport: the same case, as Werkzeug keyword arguments
+WS = "schemathesis.transport.wsgi:"
+R.contract("schemathesis.transport.prepare:prepare_path", args={"path": Str, "parameters": Opq("Any")}, returns=Str, pure=True, trusted=True, note="path template with every variable replaced (stand-in prepare_url_round_trip)")
+R.alias("path_of", "schemathesis.transport.prepare:prepare_path")
+R.nominal_methods["spec:WsgiSchema"] = {"get_full_path": lambda it, obj, a, k: ("full", a[0])}
+WCase = Obj("schemathesis.generation.case:Case", media_type=NoneT, body=Global("schemathesis.core:NOT_SET"), method=Str, path=Str, path_parameters=Opq("PathParams"),
+            query=OneOf(NoneT, KeyedDict(Str, Str, sizes=(0, 1))), operation=Obj("spec:WsgiOp", schema=Obj("spec:WsgiSchema")))
+R.contract(
+    WS + "WSGITransport.serialize_case",
+    prop="C06",
+    args={"self": Obj(WS + "WSGITransport"), "case": WCase, "kwargs": Const({})},
+    ghost={"final_headers": None},
+    ensures={
+        "method_path_and_query_of_the_case": "result['method'] == case.method and result['path'] == ('full', path_of(case.path, case.path_parameters)) and result['query_string'] is case.query",
+        "headers_are_the_prepared_ones": "all(k in result['headers'] and result['headers'][k] == ghost('final_headers')[k] for k in ghost('final_headers')) and length(result['headers']) == length(ghost('final_headers'))",
+        "nothing_else_is_sent": "sorted(result) == ['headers', 'method', 'path', 'query_string']",
+    },
+    bounded_note="one query parameter, one prepared header",
+)
+
 # ------------------------------------------------------------------------------------------------- dispatch: which conversions, in which ORDER, for a parameter definition
 def _dispatch(maker, definition):
     """setup: build the composed serializer exactly as the schema does: serialize_<spec>_parameters([definition]) -> composed."""
